@@ -112,7 +112,60 @@ def success_case(r, kind, state, api_mode, adjout=True):
         for p, nh, m in api_routes:
             steps.append(['api', f'peer * announce route {p} next-hop {nh} med {m}'])
         steps += [['sleep', 0.5], ['wait_quiet', 1.0, 20.0], ['policy', 'reset'], ['eof'], ['sleep', 1.0], ['snapshot', 'before'], ['mark', 'reload'], ['reload', new_text], ['sleep', 2.0], ['policy', 'accept'], ['accept', 60.0], ['mark', 'second'], ['establish'], ['wait_quiet', 2.0, 20.0], ['snapshot', 'after'], ['mark', 'end']]
+    elif state == 'down+api':
+        # the API routes are announced while the session is down: they sit in the Adj-RIB-Out queue when the reload is asked for
+        steps += [['accept', 30.0], ['establish'], ['wait_quiet', 1.0, 20.0], ['policy', 'reset'], ['eof'], ['sleep', 1.0]]
+        for p, nh, m in api_routes:
+            steps.append(['api', f'peer * announce route {p} next-hop {nh} med {m}'])
+        steps += [['sleep', 0.5], ['snapshot', 'before'], ['mark', 'reload'], ['reload', new_text], ['sleep', 2.0], ['policy', 'accept'], ['accept', 60.0], ['mark', 'second'], ['establish'], ['wait_quiet', 2.0, 20.0], ['snapshot', 'after'], ['mark', 'end']]
     return {'config': cfg, 'steps': steps, 'vtimeout': 400.0, 'wall': 120.0, 'quantum': 0.0005, 'rx_limit': 70000, 'kind': kind, 'state': state, 'api_mode': api_mode, 'old': old, 'new': new, 'api_routes': api_routes, 'expect': 'success', 'adjout': adjout, 'adjin': adjin, 'reestablish': hold_new != 90}
+
+
+def family_case(which: int):
+    """two reloads while the session is down: the first takes a family (and its routes) out of the neighbor, the second puts
+    the family back with other routes.  What the peer learns on the next session is the last file, nothing of the first"""
+    v4 = [f'route {p} next-hop {nh} med {m};' for p, nh, m in BASE[:3]]
+    a6 = ['route 2001:db8:a::/48 next-hop 2001:db8::1 med 1;', 'route 2001:db8:a1::/48 next-hop 2001:db8::1 med 2;']
+    b6 = ['route 2001:db8:b::/48 next-hop 2001:db8::1 med 3;'] + ([a6[1]] if which % 2 else [])
+    base = {'hold': 90, 'adjout': True, 'adjin': None, 'api': True, 'group_updates': False, 'extra_body': ''}
+    c0 = dict(base, families=[(1, 1), (2, 1)], route_texts=v4 + a6)
+    c1 = dict(base, families=[(1, 1)], route_texts=v4)
+    c2 = dict(base, families=[(1, 1), (2, 1)], route_texts=v4 + b6)
+    t1 = scen.config_text(c1, 0).replace('connect 0;', 'connect @PORT@;')
+    t2 = scen.config_text(c2, 0).replace('connect 0;', 'connect @PORT@;')
+    steps = [['accept', 30.0], ['establish'], ['wait_quiet', 1.0, 20.0], ['policy', 'reset'], ['eof'], ['sleep', 1.0], ['mark', 'reload'], ['reload', t1], ['sleep', 2.0], ['reload', t2], ['sleep', 2.0], ['policy', 'accept'], ['accept', 60.0], ['mark', 'second'], ['establish'], ['wait_quiet', 2.0, 20.0], ['mark', 'end']]
+    want = [x.split()[1] for x in v4 + b6]
+    return {'config': c0, 'steps': steps, 'vtimeout': 400.0, 'wall': 120.0, 'quantum': 0.0005, 'rx_limit': 70000, 'kind': 'family-out-and-back', 'state': 'down', 'expect': 'family', 'want': want, 'first': [x.split()[1] for x in a6]}
+
+
+def judge_family(res, case, rec):
+    cls = 'family-out-and-back:down'
+    marks = {e['name']: e for e in rec['events'] if e['kind'] == 'mark'}
+    wit = {'kind': case['kind'], 'want': case['want'], 'notes': rec['notes']}
+    if 'end' not in marks or 'second' not in marks or marks['second'].get('session') is None:
+        res.inconclusive.append(f'{cls}: scenario did not complete {rec["notes"]}')
+        return
+    reloads = [e for e in rec['events'] if e['kind'] == 'config-reload' and e['t'] >= marks['reload']['t']]
+    if len(reloads) < 2 or not all(e['ok'] for e in reloads[:2]):
+        res.violation('C17/valid-config-refused:family-out-and-back', f'two valid reloads: {[(e["ok"], e.get("error", "")[-80:]) for e in reloads]}', wit, cls)
+        return
+    table = rw.PeerTable()
+    fams = rec['sessions'][marks['second']['session']]
+    for t, ty, body in fams['rx']:
+        if ty != rw.UPDATE:
+            continue
+        d = rw.dec_update(bytes.fromhex(body), rw.sess(asn4=True, addpath=()))
+        if not d['eor']:
+            table.apply(d)
+    got = sorted(k[5] for k in table.routes)
+    wit['peer_table'] = got
+    if got != sorted(case['want']):
+        old = sorted(set(got) & set(case['first']) - set(case['want']))
+        key = 'route-of-an-earlier-file-announced' if old else 'route-missing-after-reload'
+        res.violation(f'C17/{key}:family-out-and-back:down', f'after two reloads while down the peer holds {got}, the last file says {sorted(case["want"])}', wit, cls)
+    else:
+        res.ok(cls, ('family-out-and-back',))
+        res.ok('change:family-out-and-back')
 
 
 def broken_variants(text: str):
@@ -184,10 +237,13 @@ def all_cases(tier, seed):
                 if tier == 'quick' and api_mode == 'colliding' and kind not in ('attr-changed', 'mixed'):
                     continue
                 cases.append(success_case(r, kind, state, api_mode))
+    for kind in ('remove', 'mixed', 'add'):
+        cases.append(success_case(r, kind, 'down+api', 'some'))
     # without the Adj-RIB-Out cache (adj-rib-out false) the difference must still reach the peer
     for kind in ('remove', 'mixed', 'attr-changed', 'add', 'param+remove'):
         for state in ('up', 'down'):
             cases.append(success_case(r, kind, state, 'none' if kind != 'mixed' else 'some', adjout=False))
+    cases += [family_case(0), family_case(1)]
     fc = failure_cases(r, tier)
     if tier == 'quick':
         # every fault kind, a spread of lines
@@ -245,7 +301,8 @@ def judge_success(res, case, rec):
         return
     reloads = [e for e in rec['events'] if e['kind'] == 'config-reload' and e['t'] >= marks['reload']['t']]
     if not reloads:
-        res.inconclusive.append(f'{cls}: Configuration.reload() was never called after the reload request')
+        # the scenario ran to its end (the main loop went on for virtual seconds after the request, sessions were made)
+        res.violation(f'C17/reload-request-never-acted-on:{case["state"]}', 'the reload was asked for (what SIGUSR1 does) and Configuration.reload() was never called before the end of the scenario', wit, cls)
         return
     if not reloads[0]['ok']:
         res.violation(f'C17/valid-config-refused:{case["kind"]}', f'reload of a valid configuration failed: {reloads[0]["error"][-150:]}', wit, cls)
@@ -452,11 +509,17 @@ def run_daemon(desc):
         kind = kinds[(ci + desc['part'] * 2 + desc['seed']) % len(kinds)]
         old, new, _ = change(r, kind)
         broken_first = (ci + desc['part']) % 2 == 1
+        mid_stream = (ci + desc['part']) % 3 == 2  # SIGUSR1 while a burst of API announcements is being queued and sent
         api_routes = [('172.16.1.0/24', '192.0.2.2', 9), ('172.16.2.0/24', '192.0.2.2', 8)]
+        burst = [('172.20.%d.%d/32' % (i // 250, i % 250), '192.0.2.2', i) for i in range(700)] if mid_stream else []
         probe = ('172.16.9.0/24', '192.0.2.2', 5)
-        script = '#sleep 1.0\n' + ''.join(f'peer * announce route {p} next-hop {nh} med {m}\n' for p, nh, m in api_routes) + '#wait go\n' + 'peer * announce route %s next-hop %s med %d\n' % probe
+        script = '#sleep 1.0\n' + ''.join(f'peer * announce route {p} next-hop {nh} med {m}\n' for p, nh, m in api_routes) + '#wait go\n'
+        if mid_stream:
+            broken_first = False
+            script += ''.join(f'peer * announce route {p} next-hop {nh} med {m}\n' for p, nh, m in burst) + '#wait go2\n'
+        script += 'peer * announce route %s next-hop %s med %d\n' % probe
         new_text = daemon_conf(new)
-        cls = f'daemon:{kind}' + (':after-a-broken-file' if broken_first else '')
+        cls = f'daemon:{kind}' + (':after-a-broken-file' if broken_first else '') + (':mid-stream' if mid_stream else '')
         d = daemon.Daemon(daemon_conf(old), files={'script': script})
         wit = {'kind': kind, 'old': old, 'new': new, 'broken_first': broken_first, 'level': 'daemon'}
         rx = []
@@ -489,10 +552,19 @@ def run_daemon(desc):
                     res.violation(f'C17/daemon:exited-on-a-refused-file:{bk}', 'the daemon exited after SIGUSR1 with a broken file', dict(wit, log=d.tail(500)), cls)
                     continue
                 res.ok('daemon:fault:' + bk)
-            d.rewrite_conf(new_text)
-            d.signal(signal.SIGUSR1)
-            rx += peer.drain(quiet=1.5, limit=20)
-            d.release('go')
+            if mid_stream:
+                d.release('go')
+                d.wait_lines('replies', lambda ls: sum(1 for x in ls if 'done' in x) >= len(api_routes) + 150, timeout=60)
+                d.rewrite_conf(new_text)
+                d.signal(signal.SIGUSR1)
+                d.wait_lines('replies', lambda ls: any('go2' in x for x in ls), timeout=120)
+                rx += peer.drain(quiet=2.0, limit=60)
+                d.release('go2')
+            else:
+                d.rewrite_conf(new_text)
+                d.signal(signal.SIGUSR1)
+                rx += peer.drain(quiet=1.5, limit=20)
+                d.release('go')
             d.wait_lines('replies', lambda ls: any(x.startswith('["end"') for x in ls), timeout=60)
             rx += peer.drain(quiet=1.0, limit=20)
             replies = [json.loads(x) for x in d.lines('replies')]
@@ -512,24 +584,26 @@ def run_daemon(desc):
             res.violation('C17/daemon:session-lost-by-a-reload', 'the session ended after SIGUSR1 with a file which changes routes only', dict(wit), cls)
             continue
         answered = [x for x in replies if x[0] == 'got' and 'done' in x[1]]
-        if len(answered) != len(api_routes) + 1 or any(x[0] == 'timeout' for x in replies):
-            res.violation('C17/daemon:api-not-answered-after-reload', f'{len(api_routes) + 1} commands, {len(answered)} acknowledged', dict(wit, replies=replies), cls)
+        if len(answered) != len(api_routes) + len(burst) + 1 or any(x[0] == 'timeout' for x in replies):
+            res.violation('C17/daemon:api-not-answered-after-reload', f'{len(api_routes) + len(burst) + 1} commands, {len(answered)} acknowledged', dict(wit, replies=replies[-40:]), cls)
             continue
         try:
             got = table_of(rx)
         except rw.RefError as e:
             res.violation('C17/undecodable-update', str(e), wit, cls)
             continue
-        want = {canon(p): (nh, m) for p, nh, m in new + api_routes + [probe]}
+        want = {canon(p): (nh, m) for p, nh, m in new + api_routes + burst + [probe]}
         if got != want:
             missing = sorted(set(want) - set(got))
             extra = sorted(set(got) - set(want))
             differ = sorted(k for k in set(got) & set(want) if got[k] != want[k])
             key = 'route-missing-after-reload' if missing else 'route-not-withdrawn' if extra else 'route-stale-values'
+            if mid_stream:
+                key += ':reload-asked-mid-stream'
             res.violation(f'C17/daemon:{key}:{kind}', f'after SIGUSR1 the peer holds missing={missing[:3]} extra={extra[:3]} differ={[(k, got[k], want[k]) for k in differ[:2]]}', dict(wit, peer=sorted(got.items()), expected=sorted(want.items())), cls)
         else:
             res.ok(cls, (cls,))
-            res.ok('daemon:reload')
+            res.ok('daemon:reload' + (':mid-stream' if mid_stream else ''))
     return res
 
 
@@ -579,7 +653,9 @@ def run_shard(desc):
             res.inconclusive.append(f'{case.get("kind", case.get("fault"))}: lab {status} {str(rec)[:300]}')
             continue
         try:
-            if case['expect'] == 'success':
+            if case['expect'] == 'family':
+                judge_family(res, case, rec)
+            elif case['expect'] == 'success':
                 judge_success(res, case, rec)
             else:
                 judge_failure(res, case, rec)
@@ -591,6 +667,6 @@ def run_shard(desc):
 
 
 REQUIRED_CLASSES = {
-    'quick': ['change:remove', 'change:add', 'change:same', 'change:param+remove', 'adj-rib-out:false', 'state:up', 'state:down', 'fault-kind:line', 'fault-kind:file-removed', 'fault-kind:failpoint', 'daemon:reload'],
+    'quick': ['change:remove', 'change:add', 'change:family-out-and-back', 'change:same', 'change:param+remove', 'adj-rib-out:false', 'state:up', 'state:down', 'fault-kind:line', 'fault-kind:file-removed', 'fault-kind:failpoint', 'daemon:reload', 'daemon:reload:mid-stream'],
 }
 REQUIRED_CLASSES['thorough'] = REQUIRED_CLASSES['quick']
